@@ -153,7 +153,9 @@ class Flow(object):
             pscope = self.scope.parent
             if pscope:
                 snames = pscope.names
-                if isinstance(self.scope, ClassScope):
+                if isinstance(self.scope, (ClassScope, SourceScope)):
+                    # class and module bodies look names up at run time:
+                    # what they bind later does not hide the outer name now
                     return MergedDict(snames)
                 else:
                     outer_names = set(snames).difference(self.scope.locals)
